@@ -480,6 +480,12 @@ func runC13(c *Ctx) {
 		}
 		ea := analyseEmitter(c, "partition-shape", a, -1)
 		eb := analyseEmitter(c, "partition-shape", b, pr.cb)
+		if !ea.ok && eb.ok && pr.name != "slices.Chunk" {
+			// the slice-returning variant written as a collector around its callback sibling
+			if d := c13Delegate(c, "partition-shape", a, b, eb, pr.cb); d != nil {
+				ea = d
+			}
+		}
 		ems[pr.name], ems[pr.fn] = ea, eb
 		// sibling agreement
 		if !ea.ok || !eb.ok {
@@ -699,4 +705,154 @@ func runC13(c *Ctx) {
 			o.Breaks = "spurious empty pieces at the end of the result, or an index-out-of-range panic"
 		}
 	}
+}
+
+// c13Delegate reads a slice-returning variant that has no loop of its own but hands a collecting closure to its
+// callback sibling: result := make(.., n); i := 0; Sibling(slice[, size], func(piece...) { result[i] = piece; i++ });
+// return result. The pieces, bounds and step are then the sibling's (decided on the sibling), the allocation is this
+// function's, and the closure must store every piece it is given, once, at a counter that starts at 0 and goes up
+// by one. nil when the function is not of that form.
+func c13Delegate(c *Ctx, rule string, a, b *FuncInfo, eb *emitter, cbParam int) *emitter {
+	ps := c.paths(rule, a)
+	if ps == nil || len(findLoops(ps)) != 0 {
+		return nil
+	}
+	fn := a.SSA
+	em := &emitter{fi: a, ok: true}
+	em.loopFirst, em.loopStep, em.loopCond = eb.loopFirst, eb.loopStep, eb.loopCond
+	em.pieces = append([]string(nil), eb.pieces...)
+	em.tailGuard, em.tailPiece = eb.tailGuard, eb.tailPiece
+	mains := 0
+	for _, p := range ps {
+		calls := callsNamed(p, b.Name)
+		if len(calls) == 0 {
+			// a nothing-to-emit row
+			if p.End != EndReturn || len(p.Rets) != 1 || !(p.Rets[0].IsNil() || (p.Rets[0].Op == "mkslice" && p.Rets[0].Args[0].IsConst("0"))) {
+				return nil
+			}
+			for i := range p.Events {
+				if e := &p.Events[i]; !(e.Kind == "call" && e.Name == "builtin.len") {
+					return nil
+				}
+			}
+			var cs []string
+			for _, cd := range p.Conds {
+				cs = append(cs, c13Cond(cd, nil, fn))
+			}
+			em.guardNone = append(em.guardNone, strings.Join(cs, " & "))
+			continue
+		}
+		mains++
+		if len(calls) != 1 || p.End != EndReturn || len(p.Rets) != 1 || p.Rets[0].Op != "mkslice" {
+			return nil
+		}
+		call := calls[0]
+		res := p.Rets[0]
+		// arguments handed on unchanged, the closure last
+		if len(call.Args) != cbParam+1 {
+			return nil
+		}
+		for k := 0; k < cbParam; k++ {
+			if !isParam(call.Args[k], k) {
+				return nil
+			}
+		}
+		var mk *Event
+		var counter *Term
+		for i := range p.Events {
+			e := &p.Events[i]
+			switch {
+			case e.Kind == "mkclosure" && e.Val.Key() == call.Args[cbParam].Key():
+				mk = e
+			case e.Kind == "mkclosure":
+				return nil
+			case e.Kind == "store" && e.Addr.Op == "alloc" && e.Val.Key() == res.Key():
+				// the result kept in a cell the closure shares
+			case e.Kind == "store" && e.Addr.Op == "alloc":
+				if !e.Val.IsConst("0") || counter != nil {
+					return nil
+				}
+				counter = e.Addr
+			case e.Kind == "call" && (e == call || e.Name == "builtin.len"):
+			default:
+				return nil
+			}
+		}
+		if mk == nil {
+			return nil
+		}
+		cp := c.An.ClosurePaths(mk)
+		if cp.Unproven != "" || len(cp.Paths) != 1 || len(cp.Paths[0].Conds) != 0 {
+			return nil
+		}
+		q := cp.Paths[0]
+		// which free variables are the result and the counter
+		var cell *Term
+		for _, bnd := range mk.Val.Args {
+			if bnd.Op == "alloc" && counter != nil && bnd.Key() == counter.Key() {
+				cell = bnd
+			}
+		}
+		if cell == nil {
+			return nil
+		}
+		writes, steps := 0, 0
+		var stored []*Term
+		var lit *Term
+		for i := range q.Events {
+			e := &q.Events[i]
+			if e.Kind != "store" {
+				return nil
+			}
+			switch {
+			case e.Addr.Op == "iaddr" && e.Addr.Args[0].Op == "alloc" && e.Addr.Args[0].Key() != cell.Key():
+				// an element of a composite literal built in a local array
+				lit = e.Addr.Args[0]
+				stored = append(stored, e.Val)
+			case e.Addr.Op == "iaddr":
+				// result[i] = piece
+				base, idx := e.Addr.Args[0], e.Addr.Args[1]
+				if base.Key() != res.Key() {
+					return nil
+				}
+				if !(idx.Op == "load" && idx.Args[0].Key() == cell.Key()) {
+					return nil
+				}
+				writes++
+				if lit == nil {
+					stored = []*Term{e.Val}
+				} else if !(e.Val.Op == "load" && e.Val.Args[0].Key() == lit.Key()) {
+					return nil
+				}
+			case e.Addr.Key() == cell.Key():
+				d := ToPoly(e.Val).Add(ToPoly(&Term{Op: "load", Args: []*Term{e.Addr}}), -1)
+				if k, isC := d.IsConst(); !isC || k != 1 {
+					return nil
+				}
+				steps++
+			default:
+				return nil
+			}
+		}
+		if writes != 1 || steps != 1 {
+			return nil
+		}
+		// the piece stored is what the sibling handed over: the closure's parameters, in order
+		np := len(mk.SSAFn.Params)
+		if len(stored) != np {
+			return nil
+		}
+		for k, v := range stored {
+			if !(v.Op == "param" && v.N == k) {
+				return nil
+			}
+		}
+		em.allocLen = ToPoly(res.Args[0])
+		em.idxFirst, em.loopWrites = "", "1·"
+		em.resultRet = true
+	}
+	if mains == 0 {
+		return nil
+	}
+	return em
 }
